@@ -12,6 +12,7 @@ use serde_json::json;
 use std::net::SocketAddr;
 use std::sync::Arc;
 use std::sync::atomic::{AtomicBool, Ordering};
+use tokio::io::{AsyncReadExt, AsyncWriteExt};
 use tokio::net::{TcpListener, TcpStream};
 
 const RULE: &str = "one case = one cell of the full matrix {server certificate issued by the client's trusted CA / another CA / self-signed} x {requested name matches / differs} x {skip-verify on/off} x {client certificate: none / under the server's client CA / under another CA} x {server client-CA configured / not} (72 cells, both ECDSA P-256 and P-384 material in thorough), \
@@ -225,6 +226,48 @@ async fn matrix(st: &mut Stats, pki: &Pki, alg_name: &str) {
                     }
                 }
             }
+        }
+    }
+}
+
+/// A connection on which the TLS handshake failed is over: whatever the peer writes afterwards - in the clear - is not served.
+/// (First bytes that are no ClientHello make the handshake fail without any certificate being involved; the second write is a
+/// well-formed plaintext request on the same socket.)
+async fn plaintext_after_failed_handshake(st: &mut Stats, pki: &Pki) {
+    for client_ca in [true, false] {
+        let cax = pki.p("cax.pem");
+        let Ok(identity) = make_tls_identity(&pki.p("srv-trusted.pem"), &pki.p("srv-trusted.key"), if client_ca { Some(cax.as_str()) } else { None }).await else { continue };
+        let addr = start(identity).await;
+        for first in [&b"GET / HTTP/1.1\r\nHost: localhost\r\n\r\n"[..], &b"\x16\x03\x01\x00\x05hello"[..], &b"\x00"[..]] {
+            st.evaluations += 1;
+            let Ok(mut tcp) = TcpStream::connect(addr).await else { continue };
+            if tcp.write_all(first).await.is_err() {
+                continue;
+            }
+            tokio::time::sleep(std::time::Duration::from_millis(150)).await;
+            // the second, well-formed request in the clear (may already meet a closed socket: fine)
+            let _ = tcp.write_all(REQ).await;
+            let mut got = Vec::new();
+            let mut buf = [0u8; 1024];
+            let deadline = tokio::time::Instant::now() + std::time::Duration::from_millis(1500);
+            loop {
+                match tokio::time::timeout_at(deadline, tcp.read(&mut buf)).await {
+                    Ok(Ok(0)) | Ok(Err(_)) | Err(_) => break,
+                    Ok(Ok(n)) => got.extend_from_slice(&buf[..n]),
+                }
+                if got.len() > 4096 {
+                    break;
+                }
+            }
+            st.target("plaintext_after_failed_handshake_probes", 1);
+            if got.windows(7).any(|w| w == b"HTTP/1.") {
+                st.violation(Violation {
+                    signature: format!("plaintext-served-after-failed-handshake|client_ca={client_ca}"),
+                    detail: format!("a connection to the TLS listener sent bytes that are no TLS handshake ({:02x?}...), then a plaintext GET /health: the server answered it in the clear ({:?}...) - the handshake (and with it the configured authentication) is no gate", &first[..first.len().min(8)], String::from_utf8_lossy(&got[..got.len().min(40)])),
+                    replay: json!({"kind": "c17-plaintext", "client_ca": client_ca, "first_bytes": format!("{first:02x?}")}),
+                });
+            }
+            st.nontrivial(mix(u64::from(client_ca), first.len() as u64 + 0x17));
         }
     }
 }
@@ -697,6 +740,7 @@ pub fn run(p: &Params) -> (Stats, &'static str) {
         rt.block_on(matrix(&mut st, &pki, name));
         rt.block_on(reload(&mut st, &pki, if p.tier_thorough { 6 } else { 2 }));
         rt.block_on(empty_bundle_probes(&mut st, &pki));
+        rt.block_on(plaintext_after_failed_handshake(&mut st, &pki));
         rt.block_on(client_name_matrix(&mut st, &pki));
         rt.block_on(resumption_across_reload(&mut st, &pki));
         for client_ca in [true, false] {
